@@ -283,6 +283,86 @@ def check_relative(ctx, case):
     ctx.count('relative_view:%s' % kind)
 
 
+# --------------------------------------------------------------------------- cal stream attributes of an OPENED data set
+
+def check_cal_relative(ctx, case):
+    """case: kind='cal_relative', full = index of the L0 namespace (of the six of a 1-step inherit chain) whose relative
+    namespace <p>calx_ holds a complete set of cal attributes (its own center_freq), empty = index of the one that holds an
+    empty antlist (a cal stream without solutions); optionally typed = [index, index]: `stream_type` 'sdp.cal' in the
+    first and another type in the second.  The data set is opened (metadata only) and the cal stream it registered is
+    observed: virtual sensors present?, channel frequencies of the stream."""
+    from katdal.visdatav4 import VisibilityDataV4
+    full, empty, typed = case['full'], case['empty'], case.get('typed')
+    cal = 'calx'
+
+    def hook(ts, cbid, stream):
+        ts[stream + '_inherit'] = 'base'
+        spaces = ['%s_%s_' % (cbid, stream), '%s_base_' % cbid, cbid + '_', stream + '_', 'base_', '']
+        hook.spaces = spaces
+        for i in ([full] if full is not None else []):
+            q = spaces[i] + cal + '_'
+            ts[q + 'antlist'] = ['m000', 'm001']
+            ts[q + 'pol_ordering'] = ['h', 'v']
+            ts[q + 'center_freq'] = 1e9 + 1e7 * i
+            ts[q + 'n_chans'] = 4
+            ts[q + 'bandwidth'] = 4e6
+        if empty is not None:
+            q = spaces[empty] + cal + '_'
+            ts[q + 'antlist'] = []
+            ts[q + 'center_freq'] = 5e8
+            ts[q + 'n_chans'] = 4
+            ts[q + 'bandwidth'] = 4e6
+            ts[q + 'pol_ordering'] = ['h', 'v']
+        if typed:
+            ts[spaces[typed[0]] + cal + '_stream_type'] = 'sdp.cal'
+            ts[spaces[typed[1]] + cal + '_stream_type'] = 'sdp.other'
+        else:
+            ts[cal + '_stream_type'] = 'sdp.cal'
+        ts[cal + '_decoy'] = 1
+    x = v4.build_v4(T=3, F=4, seed=1, construct=False, telstate_hook=hook, archived_override=['sdp_l0', cal])
+    try:
+        spaces = hook.spaces
+        src = TelstateDataSource(x.view, x.cbid, x.stream, chunk_store=None)
+        d = VisibilityDataV4(src)
+        registered = any(k.startswith('Calibration/Products/l1/') for k in d.sensor.virtual)
+        freqs = d._register_standard_cal_streams({})
+        got = dict(registered=registered, center=float(freqs['l1'][2]) if 'l1' in freqs else None)
+        prefixes = list(x.view.prefixes)
+        # the property: the cal stream's attribute comes from the most specific L0 namespace that defines it
+        is_l1 = True
+        if typed:
+            is_l1 = spaces.index(spaces[typed[0]]) < spaces.index(spaces[typed[1]])
+        holders = sorted(i for i in (full, empty) if i is not None)
+        win = holders[0] if (holders and is_l1) else None
+        exp = dict(registered=win is not None and win == full, center=(1e9 + 1e7 * win) if win is not None and win == full else None)
+        if ctx.model_ok:
+            st = [[codes(k), 0, 0] for k in sorted(x.telstate.keys()) if k.endswith('_antlist') or k.endswith('_stream_type')]
+            mo = ctx.model([[18, [11, [codes(q) for q in prefixes], codes(cal)]]])[0]
+            rel = [''.join(map(chr, q)) for q in mo[0]] if mo else None
+            if prefixes != spaces:
+                ctx.disagree('what=prefix_order;chain_len=2', dict(chain=['sdp_l0', 'base']), prefixes, None,
+                             'namespace order of the opened data set', spec=spaces)
+            m_holder = next((i for i, q in enumerate(rel or []) if q + 'antlist' in x.telstate), None)
+            m_type = next((x.telstate[q + 'stream_type'] for q in (rel or []) if q + 'stream_type' in x.telstate), None)
+            m_win = m_holder if m_type == 'sdp.cal' else None
+            model = dict(registered=m_win is not None and m_win == full,
+                         center=(1e9 + 1e7 * m_win) if m_win is not None and m_win == full else None)
+            if model != exp:
+                ctx.disagree('what=cal_relative_model_vs_spec', case, None, model, 'relative view of the model differs from the rule', spec=exp)
+            if got != model:
+                ctx.disagree('what=cal_relative_tie', case, got, model, 'cal stream of the opened data set differs from model', kind='tie')
+        if got != exp:
+            ctx.disagree('what=cal_relative;symptom=%s' % ('stream_type' if typed else 'registered' if got['registered'] != exp['registered']
+                                                           else 'attributes'), case, got, None,
+                         'attributes of the cal stream are not taken from the most specific L0 namespace that defines them', spec=exp)
+    finally:
+        v4.cleanup(x)
+    ctx.traces_validated += 1
+    ctx.note_case(('cal_relative', repr(case)), nontrivial=full is not None and (empty is not None or bool(typed)),
+                  sample=case)
+    ctx.count('cal_relative:%s' % ('typed' if typed else 'pair' if None not in (full, empty) else 'single'))
+
+
 # --------------------------------------------------------------------------- ids, types, sources
 
 FILE_CB = '1234567890'
@@ -947,6 +1027,213 @@ def check_flag_streams(ctx, case=None, n_modes=None):
         v4.cleanup(x)
 
 
+# --------------------------------------------------------------------------- chunk infos with ALL their arrays
+
+ARR_CB = '1234567890'
+ARR_NAMES = ('correlator_data', 'flags', 'weights', 'weights_channel', 'extra')
+
+
+def gen_arrays_case(rng):
+    """Own chunk info + archived candidates, every array with its own shape / time chunks / prefix (or none)."""
+    def chunks_for(n):
+        out = []
+        while sum(out) < n:
+            out.append(rng.randint(1, max(1, n - sum(out))))
+        return out
+
+    def array(name, T, rest, p_prefix):
+        n = max(0, T + rng.choice([0, 0, 0, 1, -1, 2]))
+        return [name, [n] + list(rest), chunks_for(n), int(rng.random() < p_prefix)]
+    F, B = rng.choice([4, 6]), rng.choice([3, 12])
+    rests = {'correlator_data': [F, B], 'flags': [F, B], 'weights': [F, B], 'weights_channel': [F], 'extra': [2]}
+    T = rng.randint(1, 5)
+    p_own = rng.choice([1.0, 1.0, 0.5, 0.0])
+    own = [array(n, T if rng.random() < 0.8 else T + 1, rests[n], p_own) for n in ARR_NAMES[:4]]
+    if rng.random() < 0.1:
+        own = [a for a in own if a[0] != rng.choice(['weights', 'weights_channel'])]
+    cands = []
+    for i in range(rng.randint(0, 3)):
+        Tc = max(0, T + rng.choice([0, 0, 1, -1, 3]))
+        names = rng.choice([['flags'], ['flags'], ['flags', 'weights'], ['weights', 'flags', 'extra'], ['extra'],
+                            ['flags', 'weights', 'weights_channel', 'correlator_data'], []])
+        p_c = rng.choice([1.0, 0.5, 0.0])
+        info = []
+        for n in names:
+            rest = list(rests[n])
+            r = rng.random()
+            if r < 0.07 and rest:
+                rest[0] += 2                               # first non-dump axis (channel) differs
+            elif r < 0.14 and len(rest) > 1:
+                rest[1] = 8                                # baseline axis only
+            elif r < 0.17:
+                rest = rest[:-1] if rng.random() < 0.5 else rest + [2]      # another number of axes
+            info.append(array(n, Tc, rest, p_c))
+        cands.append(dict(name='fl%d' % i, type=rng.choice(['sdp.flags'] * 4 + ['sdp.vis', None]),
+                          src=rng.choice([['sdp_l0']] * 4 + [['other'], ['other', 'sdp_l0'], None]),
+                          info=info if rng.random() < 0.93 else None, chunk_name=int(rng.random() < 0.6)))
+    return dict(kind='arrays', upgrade=rng.choice([None, None, True, False]), own=own, own_name=int(rng.random() < 0.7),
+                cands=cands)
+
+
+def arrays_telstate(case):
+    ts = katsdptelstate.TelescopeState()
+    cb, stream = ARR_CB, 'sdp_l0'
+
+    def info_dict(arrays, origin, prefix):
+        out = {}
+        for name, shape, chunks, hp in arrays:
+            e = {'shape': tuple(shape), 'chunks': (tuple(chunks),) + tuple((n,) for n in shape[1:]), 'dtype': '|u1',
+                 'origin': origin}
+            if hp:
+                e['prefix'] = prefix
+            out[name] = e
+        return out
+    ts['capture_block_id'], ts['stream_name'] = cb, stream
+    ts['sdp_l0_stream_type'] = 'sdp.vis'
+    ts['sdp_l0_sync_time'], ts['sdp_l0_int_time'] = 1600000000.0, INT_TIME
+    ts[cb + '_sdp_l0_first_timestamp'] = 123.0
+    ts[cb + '_sdp_l0_chunk_info'] = info_dict(case['own'], 0, cb + '-sdp-l0')
+    if case['own_name']:
+        ts[cb + '_sdp_l0_chunk_name'] = 'name-own'
+    for i, c in enumerate(case['cands']):
+        if c['type'] is not None:
+            ts[c['name'] + '_stream_type'] = c['type']
+        if c['src'] is not None:
+            ts[c['name'] + '_src_streams'] = list(c['src'])
+        if c['info'] is not None:
+            ts['%s_%s_chunk_info' % (cb, c['name'])] = info_dict(c['info'], i + 1, '%s-%s' % (cb, c['name']))
+        if c['chunk_name']:
+            ts['%s_%s_chunk_name' % (cb, c['name'])] = 'name-' + c['name']
+    ts['sdp_archived_streams'] = ['sdp_l0'] + [c['name'] for c in case['cands']]
+    return ts
+
+
+def _entries(info):
+    return [[k, v.get('origin'), [int(n) for n in v['shape']], [int(n) for n in v['chunks'][0]], v.get('prefix')]
+            for k, v in info.items()]
+
+
+def spec_arrays(case, ts):
+    """The rule of the property, array by array, read from the telstate in the namespace order of the property."""
+    cb, stream = ARR_CB, 'sdp_l0'
+    l0 = spec_namespaces(ts, cb, stream)
+
+    def complete(info, spaces):
+        for e in info.values():
+            if 'prefix' not in e:
+                name = spec_get(ts, spaces, 'chunk_name')
+                if name is None:
+                    return None
+                e['prefix'] = name
+        return info
+    cur = complete(spec_get(ts, l0, 'chunk_info'), l0)
+    if cur is None:
+        return 'KeyError'
+    upgrade = True if case['upgrade'] is None else case['upgrade']
+    for a in (spec_get(ts, l0, 'sdp_archived_streams') or []) if upgrade else []:
+        spaces = spec_namespaces(ts, cb, a, base=l0)
+        if spec_get(ts, spaces, 'stream_type') != 'sdp.flags':
+            continue
+        src = spec_get(ts, spaces, 'src_streams')
+        if src is None:
+            return 'KeyError'
+        if stream not in src:
+            continue
+        info = spec_get(ts, spaces, 'chunk_info')
+        if info is None or complete(info, spaces) is None:
+            return 'KeyError'
+        # channel, baseline and any further axis of every offered array must be those of the array it replaces
+        if any(k in cur and tuple(e['shape'][1:]) != tuple(cur[k]['shape'][1:]) for k, e in info.items()):
+            return 'ValueError'
+        cur = dict(cur, **info)             # offered arrays replace (or are added last), the others stay
+    longest = max(e['shape'][0] for e in cur.values())
+    out = []
+    for k, o, shape, chunks, prefix in _entries(cur):
+        out.append([k, o, [longest] + shape[1:], chunks + [1] * (longest - shape[0]), prefix])
+    n_ts = longest if 'correlator_data' in cur else 'KeyError'
+    return [out, n_ts]
+
+
+def check_arrays(ctx, case=None):
+    from katdal.datasources import _align_chunk_info, _ensure_prefix_is_set, _upgrade_flags
+    case = case or gen_arrays_case(ctx.rng)
+    cb, stream = ARR_CB, 'sdp_l0'
+    ts = arrays_telstate(case)
+    kw = {} if case['upgrade'] is None else {'upgrade_flags': case['upgrade']}
+    view = view_l0_capture_stream(ts, cb, stream)[0]
+    # (a) the statements of TelstateDataSource.__init__ that prepare the chunk info (sequence pinned by item_open)
+    try:
+        ci = _ensure_prefix_is_set(view['chunk_info'], view)
+        if kw.get('upgrade_flags', True):
+            ci = _upgrade_flags(ci, view, cb, stream)
+        got = [_entries(_align_chunk_info(ci))]
+    except Exception as e:   # noqa
+        got = type(e).__name__
+    # (b) the data source itself, metadata only: the number of synthesised timestamps
+    try:
+        src = TelstateDataSource(view, cb, stream, chunk_store=None, **kw)
+        n_ts = int(len(src.timestamps))
+        if not np.array_equal(src.timestamps, T0 + INT_TIME * np.arange(n_ts)):
+            n_ts = 'wrong_timestamps'
+    except Exception as e:   # noqa
+        n_ts = type(e).__name__
+    if isinstance(got, list):
+        got.append(n_ts)
+    elif n_ts != got:
+        got = [got, n_ts]
+    exp = spec_arrays(case, ts)
+    if ctx.model_ok:
+        l0 = spec_namespaces(ts, cb, stream)
+        prefixes = []
+
+        def pid(name):
+            if name not in prefixes:
+                prefixes.append(name)
+            return prefixes.index(name)
+
+        def wdict(info):
+            return [[codes(k), e['origin'], [int(n) for n in e['shape']], [int(n) for n in e['chunks'][0]],
+                     [pid(e['prefix'])] if 'prefix' in e else []] for k, e in info.items()]
+
+        def optname(v):
+            return [] if v is None else [pid(v)]
+        archived = []
+        for a in spec_get(ts, l0, 'sdp_archived_streams') or []:
+            spaces = spec_namespaces(ts, cb, a, base=l0)
+            ty, sr, info = (spec_get(ts, spaces, k) for k in ('stream_type', 'src_streams', 'chunk_info'))
+            archived.append([[codes(ty)] if isinstance(ty, str) else [], [[codes(x) for x in sr]] if sr is not None else [],
+                             [wdict(info)] if info is not None else [], optname(spec_get(ts, spaces, 'chunk_name'))])
+        mo = ctx.model([[181, [1, int(kw.get('upgrade_flags', True)), codes(stream), wdict(spec_get(ts, l0, 'chunk_info')),
+                               optname(spec_get(ts, l0, 'chunk_name')), archived]]])[0]
+        if mo[0][0] == -1:
+            model = ERRS.get(mo[0][1], 'error%d' % mo[0][1])
+        else:
+            model = [[[''.join(map(chr, k)), o, sh, ch, prefixes[p[0]] if p else None] for k, o, sh, ch, p in mo[0][1]],
+                     mo[1][0] if mo[1] else 'KeyError']
+        if model != exp:
+            ctx.disagree('what=arrays_model_vs_spec', case, None, model, 'model of the chunk info preparation differs from the '
+                         'array-by-array rule', spec=exp)
+        if got != model:
+            ctx.disagree('what=arrays_tie', case, got, model, 'prepared chunk info differs from model', kind='tie')
+    if got != exp:
+        if isinstance(got, str) or isinstance(exp, str):
+            symptom = 'not_refused' if isinstance(exp, str) and not isinstance(got, str) else \
+                ('refused:%s' % got if isinstance(got, str) else 'mixed')
+        elif got[1] != exp[1]:
+            symptom = 'timestamps'
+        elif [e[0] for e in got[0]] != [e[0] for e in exp[0]]:
+            symptom = 'array_names'
+        else:
+            symptom = next((w for j, w in ((1, 'origin'), (2, 'shape'), (3, 'chunks'), (4, 'prefix'))
+                            if [e[j] for e in got[0]] != [e[j] for e in exp[0]]), 'other')
+        ctx.disagree('what=arrays;candidates=%d;symptom=%s' % (len(case['cands']), symptom), case, got, None,
+                     'arrays of the chunk info are not replaced / refused / extended array by array as documented', spec=exp)
+    ctx.traces_validated += 1
+    multi = any(c['info'] and len(c['info']) > 1 for c in case['cands'])
+    ctx.note_case(('arrays', repr(case)), nontrivial=bool(case['cands']), sample=case)
+    ctx.count('arrays:%s:%s' % ('multi' if multi else 'single', exp if isinstance(exp, str) else 'ok'))
+
+
 # --------------------------------------------------------------------------- _align_chunk_info on its own
 
 def check_align(ctx, arrays=None):
@@ -964,7 +1251,14 @@ def check_align(ctx, arrays=None):
     for i, (chunks, tail) in enumerate(arrays):
         info['a%d' % i] = {'prefix': 'p', 'dtype': '<u1', 'shape': (sum(chunks),) + tuple(tail),
                           'chunks': (tuple(chunks),) + tuple((n,) for n in tail)}
-    out = _align_chunk_info({k: dict(v) for k, v in info.items()})
+    case = dict(arrays=arrays)
+    try:
+        out = _align_chunk_info({k: dict(v) for k, v in info.items()})
+    except Exception as e:   # noqa
+        ctx.disagree('what=align;arrays=%d;symptom=raises:%s' % (len(arrays), type(e).__name__), case, repr(e)[:200], None,
+                     '_align_chunk_info raises on a legal chunk info')
+        ctx.note_case(('align', repr(arrays)))
+        return
     got = [[list(out[k]['chunks'][0]), list(out[k]['shape']), [list(c) for c in out[k]['chunks'][1:]]] for k in sorted(info)]
     mx = max(sum(c) for c, _ in arrays)
     exp = [[list(c) + [1] * (mx - sum(c)), [mx] + list(t), [[n] for n in t]] for c, t in arrays]
@@ -981,8 +1275,27 @@ def check_align(ctx, arrays=None):
     ctx.count('align')
 
 
+def _model_guard(ctx):
+    """A Model file that does not compile on the tree under test (a translator item it needs failed closed) is left out
+    of the driver: the comparisons with the model are then skipped and the checks go on against the Python statements of
+    the property (the failing-input search)."""
+    if not ctx.model_ok:
+        return
+    try:
+        import json
+        from vh import core
+        lo = os.path.join(core.EXTRACT_DIR, 'left_out_wires.json')
+        left = json.load(open(lo)) if os.path.exists(lo) else {}
+        if any(str(w) in left for w in (18, 181)):
+            ctx.model_ok = False
+            ctx.extra['model'] = 'wires 18 / 181 are missing from the driver: search against the Python statements only'
+    except Exception:
+        pass
+
+
 def run(ctx):
     rng = ctx.rng
+    _model_guard(ctx)
     for f in ctx.findings:
         w = f['witness']
         if 'keys' in w:
@@ -1021,8 +1334,19 @@ def run(ctx):
         kind = rng.choice(['capture', 'capture', 'exclusive', 'flat', 'root'])
         check_relative(ctx, dict(cb=cb, chain=chain, view=kind, name=rng.choice(['cal', 'sdp_l1_flags', chain[0]]),
                                  attr_in=sorted(rng.sample(range(6), rng.randint(0, 3)))))
+    # cal stream attributes of an opened data set: EVERY pair of the six L0 namespaces holds differing values (both ways
+    # round), every single namespace, and the stream type decided by a pair of namespaces
+    for i, j in itertools.permutations(range(6), 2):
+        check_cal_relative(ctx, dict(kind='cal_relative', full=i, empty=j))
+    for i in range(6):
+        check_cal_relative(ctx, dict(kind='cal_relative', full=i, empty=None))
+    for _ in range(ctx.scale(6, 60)):
+        a, b = rng.sample(range(6), 2)
+        check_cal_relative(ctx, dict(kind='cal_relative', full=rng.randrange(6), empty=None, typed=[a, b]))
     for _ in range(ctx.scale(40, 400)):
         check_align(ctx)
+    for _ in range(ctx.scale(300, 3000)):
+        check_arrays(ctx)
     # capture block / stream named by file, URL query, keyword - through every entry point; unreadable sources
     x = build_ids_fixture(rng.randrange(1 << 30))
     try:
@@ -1047,10 +1371,26 @@ def run(ctx):
     fixed = dict(T=3, F=4, candidates=[dict(name='fl0', T=5, F=4, type='sdp.flags', src=['sdp_l0'])])
     for how, store in (('ctor', 'none'), ('from_url', 'none'), ('katdal.open', 'none'), ('from_url', 'auto')):
         check_open(ctx, fixed, dict(how=how, store=store, upgrade=None, n_ts=None, query={}, dataset=True))
+    # shape compatibility PER AXIS: channel only, baseline only, both, (and a second, compatible, stream after / before the
+    # incompatible one) x metadata-only and with-data openings through every entry point
     for bad in (dict(T=3, F=4, candidates=[dict(name='fl0', T=3, F=6, type='sdp.flags', src=['sdp_l0'])]),
-                dict(T=3, F=4, candidates=[dict(name='fl0', T=3, F=4, B=8, type='sdp.flags', src=['sdp_l0'])])):
-        for how, store in (('ctor', 'none'), ('katdal.open', 'none'), ('katdal.open', 'auto')):
-            check_open(ctx, bad, dict(how=how, store=store, upgrade=None, n_ts=None, query={}, dataset=True))
+                dict(T=3, F=4, candidates=[dict(name='fl0', T=3, F=4, B=8, type='sdp.flags', src=['sdp_l0'])]),
+                dict(T=3, F=4, candidates=[dict(name='fl0', T=4, F=6, B=8, type='sdp.flags', src=['sdp_l0'])]),
+                dict(T=3, F=4, candidates=[dict(name='fl0', T=3, F=4, type='sdp.flags', src=['sdp_l0']),
+                                           dict(name='fl1', T=5, F=4, B=8, type='sdp.flags', src=['other', 'sdp_l0'])]),
+                dict(T=3, F=4, candidates=[dict(name='fl0', T=3, F=4, B=14, type='sdp.flags', src=['sdp_l0']),
+                                           dict(name='fl1', T=3, F=4, type='sdp.flags', src=['sdp_l0'])])):
+        x = build_flag_fixture(bad, ctx.seed)
+        try:
+            st_vals = None
+            for how, store in (('ctor', 'none'), ('ctor', 'given'), ('from_url', 'none'), ('from_url', 'auto'),
+                               ('open_data_source', 'none'), ('open_data_source', 'given'), ('katdal.open', 'none'),
+                               ('katdal.open', 'auto')):
+                st_vals = check_open(ctx, bad, dict(how=how, store=store, upgrade=None, n_ts=None, query={}, dataset=True),
+                                     x=x, st_vals=st_vals)
+                ctx.count('shape_axis:%s' % ('meta' if store == 'none' else 'data'))
+        finally:
+            v4.cleanup(x)
     # the attributes of a flags stream that inherits (as in production) the stream it flags / a helper stream:
     # its type, sources and chunk info each only reachable through the chain
     prod = [dict(T=3, F=4, candidates=[dict(name='fl0', T=5, F=4, type='sdp.flags', src=['sdp_l0'], inherit='sdp_l0')]),
@@ -1072,6 +1412,7 @@ def run(ctx):
 
 
 def replay(ctx, doc):
+    _model_guard(ctx)
     case = doc['case']
     if 'attr_in' in case and 'name' in case:
         check_relative(ctx, case)
@@ -1081,6 +1422,10 @@ def replay(ctx, doc):
         check_placement(ctx, chain, [prefixes.index(p) for p in case['attr_in']], [prefixes.index(p) for p in case['sensor_in']])
     elif 'keys' in case:
         check_sensor_table(ctx, case)
+    elif case.get('kind') == 'cal_relative':
+        check_cal_relative(ctx, case)
+    elif case.get('kind') == 'arrays':
+        check_arrays(ctx, case)
     elif 'arrays' in case:
         check_align(ctx, case['arrays'])
     elif 'chain' in case:
